@@ -123,6 +123,7 @@ def check(ctx):
     # in composition: a listed client is answered with its address by the file plugin, which ENDS the chain (whole chains, Conv)
     from . import fam_conv
     st.update(fam_conv.run(ctx))
+    st.update(fam_conv.run6(ctx))
     st["binding_selftest"] = selftest(ctx, paths[0]) if not ctx.violations else {"skipped": "violations reported"}
     ctx.trusted += ["harness/file.go: rendering of abstract lines to text (seeded MAC/IP spellings), single-syscall edits, "
                     "reading the served mapping back through the handlers, address -> id", "fsnotify delivering one event per write syscall",
@@ -141,6 +142,9 @@ def check(ctx):
 
 def replay(ctx, path):
     meta = json.load(open(os.path.join(path, "meta.json")))
+    if meta.get("family") == "conv6":
+        from . import fam_conv
+        return fam_conv.replay6(ctx, path)
     if meta.get("family") == "conv":
         from . import fam_conv
         return fam_conv.replay(ctx, path)
